@@ -3,7 +3,9 @@ SPEC = dict(
     bin="c04",
     coq_dir="C04",
     coq_pre_cmd="python3 translators/c04_extract.py",
-    coq_targets=["C04/Proofs.vo", "C04/Gen.vo", "C04/Reflect.vo", "C04/Examples.vo", "C10/Model.vo", "C04/Codec.vo"],
+    coq_targets=["C04/Proofs.vo", "C04/Gen.vo", "C04/Reflect.vo", "C04/Examples.vo", "C10/Model.vo", "C04/Codec.vo",
+                 "C04/Merge.vo", "C04/MergeAll.vo", "C04/Union.vo", "C04/UnionProofs.vo", "C04/UnionAll.vo", "C04/Examples2.vo"],
+    props=["C04/Props.v", "C04/PropsM.v"],
     allowed_axioms=[],
     level_text=("Unbounded Coq theorems about a schema DSL and generic table codec (scalars of any width, arrays of "
                 "records counted by a field through a transform / constant / to end of data, version- and flag-gated fields, "
@@ -19,17 +21,23 @@ SPEC = dict(
                 "~200 hand-built values go through to_owned_table / dump_table / read / == / dump_table again."),
     level_note=("Partial for hand-written code: compute_* expressions, custom FontWrite/FontRead impls (glyf, gvar, name strings, "
                 "ValueRecord, PackedDeltas...), FromObjRef conversions and byte-level offset resolution (C05) are covered by the "
-                "implementation oracle only. The link 'encode(merge R W) = encode W, decode(merge R W) = decode R' is tested by "
-                "the correspondence shards (real bytes vs encode W_T, real re-read values vs decode R_T), not proved."),
+                "implementation oracle only. The link 'encode(merge R W) = encode W, decode(merge R W) = decode R' is PROVED (round 7, "
+                "coq/C04/Merge.v; encode under the decidable side condition wref W, checked by vm_compute on all 203 writers), so the "
+                "round trip is stated directly on the extracted halves W_T / R_T that the correspondence shards evaluate against the "
+                "real bytes / real getters (c04_extracted_roundtrip, instantiated on all pairs: c04_all_pairs_extracted_roundtrip). "
+                "14 of the 21 generated format enums are extracted as tagged unions (read `match format` arms + FORMAT constants / write "
+                "`match self` arms) with an unbounded union round trip (c04_union_roundtrip, c04_all_unions_roundtrip). "
+                "The shards cover 21 of the 203 pairs and 3 of the 14 unions with random values; the others are tied by the extraction + oracle only."),
     technique="Coq proof (nested induction over schemas) + reflection over schemas extracted from both generated halves + vm_compute correspondence + implementation-only round-trip oracle over the font corpus",
     modelled=["write-fonts/generated/*.rs FontWrite::write_into of 203 types (extracted, not hand-written): field order, widths, literals, array_len / plus_one / 2*array_len counts, version and flag gates, offset widths, nullability",
               "read-fonts/generated/*.rs FontRead::read + Marker byte ranges + typed offset getters of the same 203 types (extracted): order, widths, count transforms, gates",
               "write-fonts/src/write.rs TableWriter::{write_slice, write_offset}, TableData::add_offset placeholder; offsets.rs OffsetMarker / NullableOffsetMarker write_into",
-              "font-types/src/version.rs Compatible for MajorMinor / Version16Dot16 / u16; read-fonts transforms::{subtract, add, half}"],
-    not_covered=["148 generated types outside the DSL (explicit `skipped` list in coq/C04/Gen.v with reasons: read-only tables, readers needing external args, format enums, ComputeSize / VarLenArray records, hand-written counts): implementation oracle only",
+              "font-types/src/version.rs Compatible for MajorMinor / Version16Dot16 / u16; read-fonts transforms::{subtract, add, half}",
+              "14 generated format enums (AnchorTable, AxisValue, BaseCoord, CaretValue, ChainedSequenceContext, ClassDef, ClipBox, CmapSubtable, Condition, CoverageTable, CustomCharset, FdSelect, SequenceContext, SingleSubst): read-fonts `FontRead::read` (`let format = data.read_at(0)`, `match format { <T>Marker::FORMAT => .. }`, FORMAT constants) and write-fonts `FontWrite::write_into` (`match self`) extracted as UR_<E> / UW_<E>; model coq/C04/Union.v encode_union / decode_union"],
+    not_covered=["134 generated types outside the DSL (explicit `skipped` list in coq/C04/Gen.v with reasons: read-only tables, readers needing external args, 7 format enums with a variant outside the DSL / a non-standard arm, ComputeSize / VarLenArray records, hand-written counts): implementation oracle only",
                  "hand-written compute_* methods, custom FontWrite/FontRead impls, FromObjRef/FromTableRef conversions: implementation oracle only",
                  "byte-level offset resolution: decode works on the object graph (child found at the offset = C05's Resolves); end-of-data arrays followed by other data are compared on the written prefix in the oracle (cmap format 4)",
-                 "merge lemmas (encode/decode of the merged schema = encode W / decode R): correspondence shards only"],
+                 "correspondence shards (real dump_table bytes vs encode W_T, real getters vs decode R_T) cover 21 of the 203 extracted pairs (9 + 12 added in round 7, 4 of them with offsets: own-field bytes with 0xFF placeholders + child bytes at the real offset); offset VALUES (where the child lands) are C05's"],
     assumptions=["a scalar's value is its raw big-endian unsigned integer; signed / fixed-point interpretation is C15's",
                  "offset resolution is abstract: the serialized child is found at the written offset (theorem of C05)"],
     trusted_base=["translators/c04_extract.py (regular-expression based extraction from rustfmt-formatted generated code; aborts on statement shapes it was not taught)"],
